@@ -2,6 +2,7 @@ import LoomVerif.Props.C05
 
 #print axioms LoomVerif.C05.Exec.deadlock_iff_no_runnable
 #print axioms LoomVerif.C05.Exec.deadlock_iff_needs_in_range
+#print axioms LoomVerif.C05.Exec.schedule_active_in_range
 #print axioms LoomVerif.C05.Exec.schedule_no_thread
 #print axioms LoomVerif.C05.Exec.finish_not_deadlock
 #print axioms LoomVerif.C05.SC.deadlock_def
